@@ -155,6 +155,11 @@ class TreePass(BasePass):
             out = tuple(await r.map(boom, [1, 2, 3]))
         elif s == 'raise_nested':
             out = tuple(await r.map(parent_boom, [1, 2]))
+        elif s == 'raise_deep':
+            # the failing task sits two levels down and its parent hangs on the root's SECOND future, so no
+            # mailbox index on the way coincides with the compilation's id
+            first = await r.submit(leaf, 1)
+            out = (first,) + tuple(await r.map(parent_boom, [1, 2]))
         else:
             raise AssertionError(s)
         data['out'] = out
@@ -190,7 +195,7 @@ ONCE = {
 }
 CANCEL_SHAPES = ('cancel_map', 'cancel_after_next', 'cancel_nested', 'await_cancelled', 'client_cancel',
                  'client_disconnect')
-RAISE_SHAPES = ('raise_leaf', 'raise_nested', 'raise_late')
+RAISE_SHAPES = ('raise_leaf', 'raise_nested', 'raise_late', 'raise_deep')
 
 
 async def hold(x: int) -> tuple:
